@@ -110,12 +110,12 @@ type Options struct {
 	MaxTime    time.Duration
 	YieldFiles []string // files whose statement-level yields are scheduling points ("*" = all)
 	AutoTick   time.Duration
-	Drain      bool          // see Sched.Drain
+	Drain      bool // see Sched.Drain
 	// Delay selects delay-bounded scheduling (Emmi, Qadeer, Rakamaric 2011): a deterministic
 	// round-robin scheduler, every skipped thread at any decision (including the free choices after
 	// a thread blocks or exits) costs one unit of the bound. Polynomial in the bound where
 	// preemption bounding explodes on code that blocks often.
-	Delay bool
+	Delay      bool
 	StartClock time.Duration // virtual clock offset at which every execution starts
 }
 
